@@ -333,6 +333,18 @@ fn run_uni(case: &Value) -> Obs {
         o.tags.push("hint:out-of-model".into());
     }
     if accepted && !matched {
+        // known class (O-W9-1): under ignore_host_case the request host is lower-cased with str::to_lowercase (full mapping) while the
+        // LITERAL of a dynamic rule host stays as written inside a (?i) regex with simple case folding: a literal that its own
+        // lower-cased form does not match case-insensitively (e.g. `İ` -> `i̇`) makes the rule miss even the identical host.
+        // Exactly that class gets its own signature; everything else stays `unicode-case`.
+        let literal_breaks = layer == "host"
+            && config.ignore_host_case
+            && req_lit == lit
+            && RegexBuilder::new(&format!("^{}$", regex::escape(&lit))).case_insensitive(true).build().map(|r| !r.is_match(&lit.to_lowercase())).unwrap_or(false);
+        if literal_breaks {
+            return o.fail(format!("ignore_host_case: the rule host literal {lit:?} is not matched by its own lower-cased form {:?}, so the identical request host does not match", lit.to_lowercase()),
+                          "host-literal-multichar-lowercase");
+        }
         return o.fail(format!("the value {nv:?} is accepted by {re:?} but the rule does not match"), "unicode-case");
     }
     if accepted && loc != Some(format!("/t/{nv}")) {
@@ -1204,6 +1216,12 @@ fn gen(args: &Args, emit: &mut dyn FnMut(Value)) {
     let h = hints();
     if !h.is_empty() {
         gen_hints(&h, emit);
+    }
+    // fixed family, on every run: the known finding `host-literal-multichar-lowercase` (O-W9-1) and its two neighbours that must pass
+    // (the same literal without the flag; a literal whose lower case is char-for-char)
+    for (ihc, lit, re, value) in [(true, "\u{130}", "[^/.;]+", "x"), (true, "a\u{130}b", ".+?", "sub"), (true, "\u{130}", "\\w+", "\u{c9}COLE"),
+                                  (false, "\u{130}", "[^/.;]+", "x"), (true, "\u{c9}", "[^/.;]+", "x")] {
+        emit(json!({"kind": "uni", "cfg": {"ipc": false, "ihc": ihc, "ihdc": false}, "layer": "host", "lit": lit, "req_lit": lit, "regex": re, "value": value}));
     }
     if args.tier == "thorough" {
         // exhaustive: every string of length <= 5 over {a, b, A, B, 1, _, -} through each case transformer
